@@ -463,11 +463,11 @@ theorem equivariant_all {c : Cfg} {polys : List Poly} (h0 : equivCheckGen c poly
 
 /-! ### `classify` on the flat variable numbering -/
 
-theorem classify_x1 (c : Cfg) {b i : ℕ} (hb : b < c.B) (hi : i < totalDim c.in1) :
+theorem classify_x1_eq (c : Cfg) {b i : ℕ} (hb : b < c.B) (hi : i < totalDim c.in1) :
     classify c (b * totalDim c.in1 + i) = .x1 b i := by
   simp only [classify, flat_lt hb hi, if_true, flat_div hi, flat_mod hi]
 
-theorem classify_x2 (c : Cfg) {b j : ℕ} (hb : b < c.B) (hj : j < totalDim c.in2) :
+theorem classify_x2_eq (c : Cfg) {b j : ℕ} (hb : b < c.B) (hj : j < totalDim c.in2) :
     classify c (c.B * totalDim c.in1 + b * totalDim c.in2 + j) = .x2 b j := by
   have h1 : ¬ (c.B * totalDim c.in1 + b * totalDim c.in2 + j < c.B * totalDim c.in1) := by omega
   have h2 : c.B * totalDim c.in1 + b * totalDim c.in2 + j < c.B * totalDim c.in1 + c.B * totalDim c.in2 := by
@@ -513,7 +513,7 @@ theorem mono_eval_congr (env env' : ℕ → ℝ) (m : Mono) (h : ∀ v ∈ m, en
   | cons v m ih =>
     rw [Mono.eval_cons, Mono.eval_cons, h v (List.mem_cons_self), ih fun w hw => h w (List.mem_cons_of_mem _ hw)]
 
-theorem sumBy_congr_mem {K C : Type} (f g : K → C → ℝ) (l : AList K C) (h : ∀ t ∈ l, f t.1 t.2 = g t.1 t.2) :
+theorem sumBy_congr_mem_eq {K C : Type} (f g : K → C → ℝ) (l : AList K C) (h : ∀ t ∈ l, f t.1 t.2 = g t.1 t.2) :
     AList.sumBy f l = AList.sumBy g l := by
   induction l with
   | nil => rfl
@@ -532,7 +532,7 @@ theorem rowLocal_of_introspection {c : Cfg} {polys : List Poly} {mask : List Boo
   have hp := hplaced (b * totalDim c.out + k) (flat_lt hb hk)
   rw [flat_div hk, flat_mod hk] at hp
   unfold Poly.eval
-  apply sumBy_congr_mem
+  apply sumBy_congr_mem_eq
   intro t ht
   rcases hp t ht with hz | hpl
   · rw [Poly.termVal_isZero env _ _ hz, Poly.termVal_isZero env' _ _ hz]
@@ -541,8 +541,8 @@ theorem rowLocal_of_introspection {c : Cfg} {polys : List Poly} {mask : List Boo
     intro v hv
     apply hagree
     rintro ⟨b', hb', hne, ⟨i, hi, rfl⟩ | ⟨j, hj, rfl⟩⟩
-    · exact hne ((monoPlaced_rows hpl hv).1 b' i (classify_x1 c hb' hi))
-    · exact hne ((monoPlaced_rows hpl hv).2 b' j (classify_x2 c hb' hj))
+    · exact hne ((monoPlaced_rows hpl hv).1 b' i (classify_x1_eq c hb' hi))
+    · exact hne ((monoPlaced_rows hpl hv).2 b' j (classify_x2_eq c hb' hj))
 
 /-! ### inversion -/
 
@@ -561,13 +561,13 @@ theorem flipEnv_x1 (c : Cfg) {b i : ℕ} (hb : b < c.B) (hi : i < totalDim c.in1
     flipEnv c env (b * totalDim c.in1 + i)
       = if c.par1.getD (locate c.in1 i).1 false then - env (b * totalDim c.in1 + i)
         else env (b * totalDim c.in1 + i) := by
-  simp only [flipEnv, oddVar, classify_x1 c hb hi]
+  simp only [flipEnv, oddVar, classify_x1_eq c hb hi]
 
 theorem flipEnv_x2 (c : Cfg) {b j : ℕ} (hb : b < c.B) (hj : j < totalDim c.in2) (env : ℕ → ℝ) :
     flipEnv c env (c.B * totalDim c.in1 + b * totalDim c.in2 + j)
       = if c.par2.getD (locate c.in2 j).1 false then - env (c.B * totalDim c.in1 + b * totalDim c.in2 + j)
         else env (c.B * totalDim c.in1 + b * totalDim c.in2 + j) := by
-  simp only [flipEnv, oddVar, classify_x2 c hb hj]
+  simp only [flipEnv, oddVar, classify_x2_eq c hb hj]
 
 theorem flipEnv_weights (c : Cfg) {n : ℕ} (h : c.B * totalDim c.in1 + c.B * totalDim c.in2 ≤ n) (env : ℕ → ℝ) :
     flipEnv c env n = env n := by
@@ -611,7 +611,7 @@ theorem parity_spec {c : Cfg} {polys : List Poly} (h : parityCheck c polys = tru
   rw [flat_mod hk] at hp
   unfold Poly.eval
   rw [← AList.sumBy_mul_left]
-  apply sumBy_congr_mem
+  apply sumBy_congr_mem_eq
   intro t ht
   rcases hp t ht with hz | hpar
   · rw [Poly.termVal_isZero _ _ _ hz, Poly.termVal_isZero _ _ _ hz, mul_zero]
